@@ -51,10 +51,12 @@ package alpine
 //@   ensures wf: result1 == nil ==> namedSuffixes(result0)   [C01]
 
 //@ func (*Ecosystem).NewVersion
+//@   ensures text: result1 == nil ==> result0.original == arg1 || result0.original == strings.TrimSpace(arg1)   [C18]
 //@   ensures xor: (result0 != nil) == (result1 == nil)
 //@   ensures wf: result1 == nil ==> wf(result0)           [C01]
 
 //@ func (*Ecosystem).NewVersionRange
+//@   ensures text: result1 == nil ==> result0.original == arg1 || result0.original == strings.TrimSpace(arg1)   [C18]
 //@   ensures xor: (result0 != nil) == (result1 == nil)
 
 // ---- ranges (C02: a comparator holds exactly when Compare says so; C20: membership depends only on order position)
@@ -83,3 +85,11 @@ package alpine
 //@ spec icmp(a int, b int) int = a == b ? 0 : (a < b ? -1 : 1)
 //@ spec ecmp(x numericComponent, y numericComponent) int = (lz(x.originalStr) || lz(y.originalStr)) ? scmp(x.originalStr, y.originalStr) : icmp(x.value, y.value)
 //@ lemma elem-trans [C01]: forall x, y, z numericComponent :: strlex() && wfComp(x) && wfComp(y) && wfComp(z) && ecmp(x, y) <= 0 && ecmp(y, z) <= 0 ==> ecmp(x, z) <= 0 && ((ecmp(x, y) < 0 || ecmp(y, z) < 0) ==> ecmp(x, z) < 0)
+
+// ---- stored text (C18)
+
+//@ func (*Version).String
+//@   ensures text: result == arg0.original   [C18]
+
+//@ func (*VersionRange).String
+//@   ensures text: result == arg0.original   [C18]
